@@ -137,6 +137,10 @@ class Cpu:
         for k, x in new.items():
             self.st['R.' + k] = x
 
+    def unknown_bits(self, leaf, mask):
+        """bits `mask` of a state leaf (e.g. 'cpsr') hold an architecturally UNKNOWN value"""
+        self.unkmask[leaf] = mask | self.unkmask.get(leaf, 0)
+
     def unknown_bits_R(self, n, mask):
         """bits `mask` of R[n] (current mode) hold an architecturally UNKNOWN value"""
         zero = {k: 0 for k in self._Rview()}
